@@ -28,11 +28,14 @@ class Conn(object):
 
 
 class LoopServer(threading.Thread):
-    def __init__(self, auto_success=True):
+    def __init__(self, auto_success=True, slow_reader=False):
         super(LoopServer, self).__init__(name="verif-loopserver")
         self.daemon = True
+        self.slow_reader = slow_reader      # small receive window, small slow reads: the client's writes go partial (backlog)
         self.lsock = socket.socket()
         self.lsock.setsockopt(socket.SOL_SOCKET, socket.SO_REUSEADDR, 1)
+        if slow_reader:
+            self.lsock.setsockopt(socket.SOL_SOCKET, socket.SO_RCVBUF, 4096)
         self.lsock.bind(("127.0.0.1", 0))
         self.lsock.listen(8)
         self.port = self.lsock.getsockname()[1]
@@ -64,7 +67,11 @@ class LoopServer(threading.Thread):
         c.sock.settimeout(0.2)
         while not self.stop_flag:
             try:
-                data = c.sock.recv(65536)
+                if self.slow_reader and c.srv.state == "transport":
+                    time.sleep(0.0004)
+                    data = c.sock.recv(8192)
+                else:
+                    data = c.sock.recv(65536)
             except socket.timeout:
                 continue
             except OSError:
